@@ -50,16 +50,22 @@ impl LocalPeerService {
 //@ insert body-start
             let ghost mut released: Seq<Uid> = Seq::empty();
             let ghost mut attempted: bool = false;
+            let ghost mut taken: Option<bool> = None;      // what taking the room out of the connection's held set answered
 //@ insert-each after-stmt "match Self::synchronise_room("
             proof { attempted = true; }
 //@ insert-each after-stmt "lock_service.unlock(room)"
             proof { released = released.push(room); }
+//@ insert-each after-stmt "let held = acquired_lock.lock().await.remove(&room);" optional
+            proof { taken = Some(held); }
+//@ insert-each before-stmt "lock_service.unlock(room)"
+                // [room_released_only_by_who_took_it_from_the_held_set] the task hands the room back only if it took it out of the connection's held set itself: a room already taken by the end-of-connection cleanup was released there (finding F20: two releases for one grant free a room that was granted to another connection in between)
+                assert(taken == Some(true) && released =~= Seq::<Uid>::empty());
 //@ insert-each before-stmt "return" optional
-            // [room_released_on_every_exit] no exit of the room task without handing the room back
-            assert(released =~= seq![room]);
-//@ insert before-stmt "acquired_lock.lock().await.remove(&room);"
-            // [granted_room_released_exactly_once] the granted room is handed back exactly once, after the synchronisation attempt, whatever its outcome
-            assert(released =~= seq![room] && attempted);
+            // [room_released_on_every_exit] no exit of the room task without the room having been taken out of the held set and, if it was still there, handed back
+            assert(attempted && taken is Some && released =~= (if taken->Some_0 { seq![room] } else { Seq::<Uid>::empty() }));
+//@ insert body-end
+            // [granted_room_released_exactly_once] at the end of the task, after the synchronisation attempt and whatever its outcome, the room has been taken out of the held set and handed back exactly once if it was still there
+            assert(attempted && taken is Some && released =~= (if taken->Some_0 { seq![room] } else { Seq::<Uid>::empty() }));
 //@ end
 
 //@ extract src/synchronisation/peer_inbound_service.rs :: impl LocalPeerService / fn cleanup
